@@ -251,7 +251,7 @@ void *a_vec_push_back(a_vec *ctx)
 
 void *a_vec_remove(a_vec *ctx, a_size idx)
 {
-    if (idx + 1 < ctx->num_)
+    if (idx < ctx->num_ && idx + 1 < ctx->num_)
     {
         a_byte *const p = (a_byte *)ctx->ptr_ + ctx->siz_ * idx;
         a_byte *const q = p + ctx->siz_;
